@@ -1,0 +1,99 @@
+//go:build verif
+
+package radius
+
+// Add-only verification hooks for property C09 (no packet from the network can
+// crash or hang the gateway).  Compiled only with `-tags verif`; nothing here
+// changes behaviour.
+//
+// The CoA/DM datagram handling is inline in receiveLoop, which Start runs in a
+// goroutine (a panic there kills the process).  VerifC09Serve runs the real,
+// unmodified receiveLoop in the CALLING goroutine over a loopback socket, so a
+// panic unwinds into the harness.
+
+import (
+	"context"
+	"fmt"
+	"net"
+	"sync/atomic"
+	"time"
+
+	layeh "layeh.com/radius"
+)
+
+// VerifC09StopSessionID is the Acct-Session-Id of the authentic
+// Disconnect-Request that ends one VerifC09Serve batch.
+const VerifC09StopSessionID = "verif-c09-stop"
+
+// VerifC09Listen binds the server socket (what Start does) without starting the loop.
+func (s *CoAServer) VerifC09Listen() (*net.UDPAddr, error) {
+	addr, err := net.ResolveUDPAddr("udp", s.addr)
+	if err != nil {
+		return nil, err
+	}
+	conn, err := net.ListenUDP("udp", addr)
+	if err != nil {
+		return nil, err
+	}
+	s.conn = conn
+	return conn.LocalAddr().(*net.UDPAddr), nil
+}
+
+// VerifC09Serve runs receiveLoop synchronously.  The caller has already written
+// the datagrams to the socket, the last one being an authentic
+// Disconnect-Request with Acct-Session-Id VerifC09StopSessionID; the disconnect
+// handler installed here stops the loop when it sees it (every other request
+// goes to inner).  Returns an error if the stop datagram was not seen within
+// maxWait (the loop is then stopped through its context).
+func (s *CoAServer) VerifC09Serve(inner DisconnectHandler, maxWait time.Duration) error {
+	stopped := false
+	s.SetDisconnectHandler(func(ctx context.Context, req *DisconnectRequest) *DisconnectResponse {
+		if req.SessionID == VerifC09StopSessionID {
+			stopped = true
+			atomic.StoreInt32(&s.running, 0)
+			return &DisconnectResponse{Success: true}
+		}
+		if inner != nil {
+			return inner(ctx, req)
+		}
+		return &DisconnectResponse{Success: false, ErrorCause: ErrorCauseSessionContextNotFound, Message: "Session not found"}
+	})
+	ctx, cancel := context.WithTimeout(context.Background(), maxWait)
+	defer cancel()
+	atomic.StoreInt32(&s.running, 1)
+	s.receiveLoop(ctx)
+	if !stopped {
+		return fmt.Errorf("verif: stop datagram not processed within %v", maxWait)
+	}
+	return nil
+}
+
+// VerifC09Drain discards everything queued on the server socket (used after a
+// recovered panic left later datagrams of the batch unread).
+func (s *CoAServer) VerifC09Drain() {
+	buf := make([]byte, 4096)
+	for {
+		s.conn.SetReadDeadline(time.Now().Add(20 * time.Millisecond))
+		if _, _, err := s.conn.ReadFromUDP(buf); err != nil {
+			return
+		}
+	}
+}
+
+// VerifC09Close closes the server socket.
+func (s *CoAServer) VerifC09Close() {
+	if s.conn != nil {
+		s.conn.Close()
+	}
+}
+
+// VerifC09ParseAuth runs the client's Access-Accept attribute extraction on a parsed response.
+func (c *Client) VerifC09ParseAuth(response *layeh.Packet) *AuthResponse {
+	r := &AuthResponse{Attributes: make(map[string]interface{})}
+	c.parseAuthAttributes(response, r)
+	return r
+}
+
+// VerifC09ParseAttributes calls the CoA attribute parser on exactly the given bytes
+// (receiveLoop hands it a window of its 4096-byte buffer, where an over-read is silent).
+func VerifC09ParseAttributes(data []byte) ([]Attribute, error) { return parseAttributes(data) }
